@@ -52,12 +52,16 @@ def main():
     missed = 0
     neutral = 0
     for name, pid, det, und in results:
+        neutralised = json.load(open(os.path.join(VERIF, 'seeded', name, 'meta.json'))).get('neutralised_by')
+        if det is None and neutralised:
+            neutral += 1
+            print(f'{name:50s} NEUTRALISED target={pid} (patch kept against its original base; {neutralised[:60]}...)')
+            continue
         if det is None:
             print(f'{name:50s} ERROR {und}')
             missed += 1
             continue
         ok = pid in det
-        neutralised = json.load(open(os.path.join(VERIF, 'seeded', name, 'meta.json'))).get('neutralised_by')
         if neutralised:
             # a later fix of /repo removed the fault this change relied on: it no longer breaks the property
             neutral += 1
